@@ -648,3 +648,251 @@ def prog_model_check(ctx, c, outs):
 def prog_index_check(ctx, c, outs):
     r, obj, ref, ek = run_prog_impl(c)
     return r
+
+
+# ---------------- no-mutation clause -----------------------------------------------------
+SKIP_MEMBER = ("plot", "scatter", "draw", "imshow", "random")
+UNARY = ["__neg__", "__invert__", "__repr__", "__abs__", "__pos__", "__len__", "__hash__", "__str__"]
+THRESH = [0.0, -0.0, 1e-9, -1e-9, 5e-9, 1e-8, -1e-8, 2e-8, 1e-13, -1e-13, 9.9e-13, 1.1e-12, 1.0, -1.0, 0.5,
+          1.0 + 1e-9, 1e-6, -1e-6, -2e-6, -1e-7, 0.3, -0.7]
+
+
+def members(cls_name):
+    """public properties, argument-free methods and unary operators of the class, found by reflection"""
+    C = _imp()[cls_name]
+    out = []
+    for name in sorted(set(dir(C))):
+        if any(s in name for s in SKIP_MEMBER):
+            continue
+        try:
+            st = inspect.getattr_static(C, name)
+        except AttributeError:
+            continue
+        if name.startswith("_"):
+            if name in UNARY and callable(getattr(C, name, None)) and not isinstance(st, (classmethod, staticmethod)):
+                out.append((name, "unary"))
+            continue
+        if isinstance(st, property):
+            out.append((name, "property"))
+        elif inspect.isfunction(st):
+            try:
+                sig = inspect.signature(st)
+            except (TypeError, ValueError):
+                continue
+            ps = list(sig.parameters.values())[1:]
+            if all(p.default is not inspect.Parameter.empty or p.kind in (p.VAR_POSITIONAL, p.VAR_KEYWORD) for p in ps):
+                out.append((name, "method"))
+    return out
+
+
+def nomut_build(c):
+    C = _imp()
+    cls = c["cls"]
+    data = np.array(c["data"], dtype=float).reshape(tuple(c["shape"]) + (-1,))
+    if cls == "Miller":
+        o = C[cls](xyz=data, phase=phase_by_name(c["meta"]["phase"]))
+        o.coordinate_format = c["meta"]["fmt"]
+    elif cls == "Misorientation":
+        o = C[cls](data, symmetry=(sym_by_name(c["meta"]["sym"][0]), sym_by_name(c["meta"]["sym"][1])))
+    elif cls == "Orientation":
+        o = C[cls](data, symmetry=sym_by_name(c["meta"]["sym"][1]))
+    else:
+        o = C[cls](data)
+    if cls in ROT:
+        with np.errstate(all="ignore"):
+            o.improper = np.array(c["flags"], dtype=bool).reshape(tuple(c["shape"]))
+    return o
+
+
+def full_hash(obj):
+    h = hashlib.blake2b(digest_size=12)
+    h.update(buf_hash(obj).encode())
+    ph = getattr(obj, "phase", None)
+    if ph is not None:
+        h.update(repr(phase_sig(ph)).encode())
+        if ph.point_group is not None:
+            h.update(np.ascontiguousarray(ph.point_group._data).tobytes())
+    h.update(repr(getattr(obj, "_coordinate_format", None)).encode())
+    return h.hexdigest()
+
+
+def nomut_check(ctx, c, outs):
+    obj = nomut_build(c)
+    before = full_hash(obj)
+    ref = np.array(obj._data, copy=True)
+    name, kind = c["member"], c["kind"]
+    raised = None
+    import contextlib
+    import io
+    import matplotlib
+    matplotlib.use("Agg")
+    with warnings.catch_warnings(), np.errstate(all="ignore"), contextlib.redirect_stdout(io.StringIO()):
+        warnings.simplefilter("ignore")
+        try:
+            if kind == "property":
+                getattr(obj, name)
+            else:
+                getattr(obj, name)()
+        except Exception as e:  # the clause is about the operand, not about the result
+            raised = type(e).__name__
+    ctx.strata[f"nomut/{'raised' if raised else 'returned'}"] = ctx.strata.get(
+        f"nomut/{'raised' if raised else 'returned'}", 0) + 1
+    if full_hash(obj) != before:
+        d = obj._data
+        if d.shape == ref.shape:
+            bad = np.argwhere(~((d == ref) | ((d != d) & (ref != ref))))
+            where = f"first changed entry at {bad[0].tolist()}: {ref[tuple(bad[0])]!r} -> {d[tuple(bad[0])]!r}" if len(bad) \
+                else "bit pattern changed (sign of zero / metadata)"
+        else:
+            where = f"_data shape {ref.shape} -> {d.shape}"
+        return f"{c['cls']}.{name} ({kind}) changed its operand: {where}"
+    return None
+
+
+def thresh_data(rng, n, dim):
+    rows = []
+    for _ in range(n):
+        r = [THRESH[rng.integers(len(THRESH))] for _ in range(dim)]
+        if rng.random() < 0.3:
+            r = [float(x) for x in rng.normal(size=dim)]
+        rows.append([float(x) for x in r])
+    return rows
+
+
+# ---------------- known findings ---------------------------------------------------------
+def _first_failure(case):
+    try:
+        r, _, _, _ = run_prog_impl(case)
+    except Exception:
+        return ""
+    return r or ""
+
+
+def pred_miller_neg(case):
+    r = _first_failure(case)
+    return case.get("cls") == "Miller" and " neg: metadata " in r and "'phase': 'none', 'fmt': 'xyz'" in r
+
+
+def pred_miller_squeeze(case):
+    r = _first_failure(case)
+    return case.get("cls") == "Miller" and " squeeze: orix raised DimensionError" in r
+
+
+PREDICATES = {"miller_neg_drops_metadata": pred_miller_neg, "miller_squeeze_raises": pred_miller_squeeze}
+
+SITES = {
+    "prog_model": sites.Site("prog_model", "corr", prog_model_check, prog_model_lines),
+    "prog_index": sites.Site("prog_index", "prop", prog_index_check),
+    "nomut": sites.Site("nomut", "prop", nomut_check),
+}
+
+
+def prog_key(case):
+    return ("prog", case["cls"], case["shape"], case["flags"], case["meta"], case["prog"])
+
+
+def nontrivial(case):
+    return int(np.prod(case["shape"])) > 1 and any(op[0] not in ("unit", "neg", "inv") for op in case["prog"])
+
+
+def generate(ctx):
+    rng = ctx.rng
+    quick = ctx.tier == "quick"
+    n = 2400 if quick else 40000
+    for i in range(n):
+        cls = CLASSES[i % 6]
+        case = rand_case(rng, cls)
+        kinds = "+".join(sorted({op[0] for op in case["prog"]}))
+        ctx.count(f"prog/{cls}/len{len(case['prog'])}", prog_key(case), nontrivial=nontrivial(case))
+        for op in case["prog"]:
+            ctx.strata[f"op/{op[0]}"] = ctx.strata.get(f"op/{op[0]}", 0) + 1
+        ctx.strata[f"shape/ndim{len(case['shape'])}" + ("/empty" if 0 in case["shape"] else "")] = ctx.strata.get(
+            f"shape/ndim{len(case['shape'])}" + ("/empty" if 0 in case["shape"] else ""), 0) + 1
+        if i < 4:
+            ctx.sample({"site": "prog_model+prog_index", **case})
+        yield "prog_model", case
+        yield "prog_index", case
+    # negative axes: orix reads them against data.ndim (component axis included) -> model-vs-code only
+    for i in range(300 if quick else 5000):
+        cls = CLASSES[i % 6]
+        case = rand_case(rng, cls, neg_axes=True)
+        ctx.count(f"prog_negaxes/{cls}", prog_key(case), nontrivial=nontrivial(case))
+        yield "prog_model", case
+    # every metadata combination, short programs that touch every metadata-carrying operation
+    for cls in ("Misorientation", "Orientation", "Miller"):
+        for meta in all_metas(cls):
+            case = rand_case(rng, cls, shape=[2, 1, 3], meta=meta, nops=int(rng.integers(2, 6)))
+            ctx.count(f"meta/{cls}", prog_key(case), nontrivial=nontrivial(case))
+            yield "prog_model", case
+            yield "prog_index", case
+            for op in (["unit"], ["inv"], ["neg"], ["squeeze"], ["flatten"], ["transpose", [2, 0, 1]],
+                       ["getitem", {"t": [{"i": 1}]}], ["reshape", [3, 2], "args"]):
+                if op[0] == "inv" and cls == "Miller":
+                    continue
+                c2 = {"cls": cls, "shape": [2, 1, 3], "flags": [bool(rng.integers(2)) for _ in range(6)] if cls in ROT
+                      else [], "meta": meta, "prog": [op]}
+                ctx.count(f"meta1/{cls}/{op[0]}", prog_key(c2))
+                yield "prog_model", c2
+                yield "prog_index", c2
+    # 1-d transpose, empty objects, size-1 axes: one explicit case per class
+    for cls in CLASSES:
+        for shape, prog in (([3], [["transpose", None]]), ([3], [["transpose", [0]]]), ([0], [["flatten"], ["squeeze"]]),
+                            ([1, 1], [["squeeze"], ["transpose", None]]), ([2, 0, 3], [["transpose", [2, 0, 1]], ["flatten"]]),
+                            ([1, 4, 1], [["squeeze"], ["reshape", [2, 2], "tuple"], ["transpose", None]])):
+            n0 = int(np.prod(shape))
+            c2 = {"cls": cls, "shape": shape, "flags": [bool(rng.integers(2)) for _ in range(n0)] if cls in ROT else [],
+                  "meta": rand_meta(rng, cls), "prog": prog}
+            ctx.count(f"edge/{cls}", prog_key(c2), nontrivial=n0 > 0)
+            yield "prog_model", c2
+            yield "prog_index", c2
+    # no-mutation clause
+    reps = 2 if quick else 8
+    for cls in CLASSES:
+        dim = 4 if cls in QUAT else 3
+        mem = members(cls)
+        ctx.extra.setdefault("nomut_members", {})[cls] = [m for m, _ in mem]
+        for rep in range(reps):
+            shape = [[4], [2, 3], [1], [3, 1, 2]][(rep + CLASSES.index(cls)) % 4]
+            n0 = int(np.prod(shape))
+            data = thresh_data(rng, n0, dim)
+            if cls in ROT:  # keep rows normalisable
+                for r in data:
+                    if not any(abs(x) > 1e-3 for x in r):
+                        r[int(rng.integers(dim))] = 1.0
+            meta = rand_meta(rng, cls)
+            flags = [bool(rng.integers(2)) for _ in range(n0)] if cls in ROT else []
+            for name, kind in mem:
+                c = {"cls": cls, "shape": shape, "data": data, "flags": flags, "meta": meta, "member": name,
+                     "kind": kind}
+                ctx.count(f"nomut/{cls}", ("nomut", cls, name, data, flags, meta))
+                if name in ("azimuth", "axis") and rep == 0:
+                    ctx.sample({"site": "nomut", **c})
+                yield "nomut", c
+
+
+def run(ctx, status):
+    driver_ok = lean_phase(ctx, status, ["OrixProofs.Properties.C16"])
+    if ctx.replay:
+        site, case, body = sites.load_replay(ctx.replay)
+        if site in SITES:
+            sites.run_cases(ctx, SITES, [(site, case)], driver_ok)
+    else:
+        sites.run_cases(ctx, SITES, generate(ctx), driver_ok)
+    return common.finish(
+        ctx, "proof", PREDICATES,
+        rule="seeded programs of 1-6 operations (getitem with ints/slices incl. negative and stepped/tuples/boolean "
+             "masks, reshape incl. -1, flatten, transpose incl. 1-d, default and explicit axes, squeeze, stack, unit, "
+             "inverse, negation; ~12% end in an invalid operation) over the six classes, 25 shapes incl. size-1 axes and "
+             "empty, random improper flags, every metadata combination; elements carry integer tags so placement is "
+             "compared exactly; each program runs against the Lean model (prog_model) and against numpy on an index "
+             "array (prog_index); no-mutation: every public property / argument-free method / unary operator found by "
+             "reflection on threshold-valued data; a program is non-trivial when the object has more than one element "
+             "and at least one structural operation; distinct by hash of the whole case",
+        assumptions=["numpy's own indexing/reshape/transpose/stack semantics is the reference for 'the same operation on "
+                     "an index array' (prog_index) and is what the Lean model is compared with (prog_model)",
+                     "the rotation classes renormalise in every constructor call; the tables hold unit quaternions "
+                     "that are bitwise fixed points of that normalisation, so comparison stays exact",
+                     "keys longer than the number of navigation axes, Ellipsis/None/integer-array keys and 0-d "
+                     "reshape targets are outside the model and are not generated",
+                     "the no-mutation clause is checked on the implementation (buffer hashes); model functions are "
+                     "pure by construction"])
